@@ -171,6 +171,11 @@ class C01(Prop):
         n = rng.choice([2, 3, 4, 6, 8, 12]) if tier == 'quick' else \
             rng.choice([3, 5, 8, 12, 20, 30])
         ops = gen.gen_history(rng, cfg, n, self.REQS, self.WEIGHTS)
+        for op in ops:
+            if op['op'] == 'req' and op['cmd'] in ('incr', 'decr') and \
+                    rng.random() < 0.15:
+                # any integer is accepted: negative and zero amounts
+                op['props']['nb'] = rng.choice([-5, -2, -1, 0, 7])
         b = 3
         for wc in cfg['watchers']:
             # numprocesses can be raised to 5 (+3 by incr) during the history
